@@ -15,7 +15,8 @@ RULE = ("as C05: (connection type x request shape x context x flavour) x (every 
         "(type, shape, context, flavour, injection label, trace phase); plus the real-socket tier: an fd ledger (/proc/self/fd) over "
         "the three real back-ends x 13 loopback server behaviours incl. failed, timed-out and cancelled TLS handshakes; plus "
         "'window' histories: a kept-alive connection whose server hangs up / whose keep-alive period runs out right after "
-        "the pool polled it (7 connection types x 4 timings x 3 flavours)")
+        "the pool polled it (7 connection types x 4 timings x 3 flavours); plus 'multi-evict': a pass that evicts 2-3 expired "
+        "connections at once, the triggering request cancelled at every suspension point x style")
 ASSUMPTIONS = ["simulated streams count as closed once close()/aclose() was *called* (as socket.close() precedes the "
                "checkpoint in the real back-ends)",
                "start_tls closes the transport on failure but not on cancellation, as the real back-ends do",
@@ -145,9 +146,79 @@ def run_window(case):
     return {"viol": out, "counters": cnt, "sigs": sigs, "sample": None}
 
 
+def run_multi_evict(case):
+    """One pass of the pool that evicts SEVERAL connections (expired idle ones), with the request that triggered it
+    cancelled at each of its suspension points in turn - in particular inside the closing of the first evicted connection.
+    Every evicted connection's stream must still be closed."""
+    from .. import simnet, endpoints, runners
+    from ..simnet import CALL
+    from ..world import mk_pool, API, run_flavor, guarded, owned_transports
+    flavor = case["flavor"]
+    viol = []
+    cnt = {k: 0 for k in ["runs", "faults_fired", "cancels_fired", "oracle_quiescent_ownership", "oracle_closed_after_pool_close",
+                          "transports_opened", "multi_evict_runs"]}
+    sigs = []
+
+    async def one(n_idle, style, k):
+        net = simnet.Net()
+        for i in range(n_idle + 1):
+            endpoints.Origin(net, f"o{i}.test", 80)
+        pool = mk_pool(flavor, net, max_connections=n_idle + 1, keepalive_expiry=1.0)
+        api = API(flavor, pool, net)
+        for i in range(n_idle):
+            CALL.set(f"w{i}")
+            await guarded(flavor, lambda i=i: api.request("GET", f"http://o{i}.test/", headers=[("X-Token", f"w{i}")]))
+        await api.sleep(5.0)     # all of them have expired; the next pass evicts them together
+        CALL.set("victim")
+        fired = []
+        out, K = await runners.run_with_cancel(
+            flavor, lambda: api.request("GET", f"http://o{n_idle}.test/", headers=[("X-Token", "victim")]), style, k,
+            on_fire=lambda: fired.append(1))
+        await api.sleep(1.0)
+        owned = set()
+        for c in pool.connections:
+            owned |= owned_transports(c)
+        orphans = [t.id for t in net.transports if not t.closed and t.id not in owned]
+        await guarded(flavor, api.close_pool)
+        still = [t.id for t in net.transports if not t.closed]
+        return K, bool(fired), orphans, still, repr(out)
+
+    async def main():
+        for n_idle in (2, 3):
+            K, _, _, _, _ = await one(n_idle, None, None)
+            styles = ["scope-before", "scope-after"] + (["native"] if flavor == "asyncio" else [])
+            for style in styles:
+                for k in range(1, K + 2):
+                    K2, fired, orphans, still, outr = await one(n_idle, style, k)
+                    cnt["runs"] += 1
+                    cnt["multi_evict_runs"] += 1
+                    cnt["transports_opened"] += n_idle + 1
+                    if not fired:
+                        continue
+                    cnt["cancels_fired"] += 1
+                    cnt["oracle_quiescent_ownership"] += 1
+                    cnt["oracle_closed_after_pool_close"] += 1
+                    sigs.append(f"multi-evict|{flavor}|{n_idle}|{style}|{k}")
+                    ctx = {"flavor": flavor, "expired_idle_connections": n_idle, "style": style, "k": k, "outcome": outr}
+                    if orphans:
+                        key = f"leak:orphan-at-quiescence:multi-evict:{style}"
+                        if not any(x["key"] == key for x in viol):
+                            viol.append({"key": key, "what": f"stream(s) {orphans} of connections evicted in the pass are still open "
+                                                              f"(cancelled at suspension point {k})", "detail": ctx})
+                    elif still:
+                        key = f"leak:open-after-pool-close:multi-evict:{style}"
+                        if not any(x["key"] == key for x in viol):
+                            viol.append({"key": key, "what": f"{still}", "detail": ctx})
+
+    run_flavor(flavor, None, main, seed=0)
+    return {"viol": viol, "counters": cnt, "sigs": sigs, "sample": None}
+
+
 def run_case(case):
     if case.get("realsock"):
         return run_realsock(case)
+    if case.get("multi_evict"):
+        return run_multi_evict(case)
     if case.get("window"):
         return run_window(case)
     return run_enumeration(case, judge, {"oracle_quiescent_ownership": 0, "oracle_closed_after_pool_close": 0,
@@ -158,4 +229,4 @@ def plan(tier, seed):
     windows = [{"window": True, "ctype": ct, "flavor": fl} for ct in ("h1", "h1tls", "h2", "fwd", "tun", "socks", "maybe-h2")
                for fl in ("asyncio", "trio", "sync")]
     return (plan_cases(tier, seed + 1000) + [{"realsock": True, "backend": be} for be in ("sync", "anyio", "trio")]
-            + windows)
+            + windows + [{"multi_evict": True, "flavor": fl} for fl in ("asyncio", "trio")])
